@@ -78,24 +78,34 @@ def validate(traces, sc):
 
 
 # ---- spec-side exhaustive runs of the implementation-shaped model --------------------------------------------------
+# (module, cfg, invariant that MUST be violated or None)
 MODEL_CFGS = {
-    "c15": [("AsyncDriver_c15.cfg", True), ("AsyncDriver_cancel.cfg", True), ("AsyncDriver_cancel_old.cfg", False)],
-    "c16": [("AsyncDriver_c15.cfg", True), ("AsyncDriver_cancel.cfg", True), ("AsyncDriver_loss.cfg", True)],
-    "c17": [("AsyncDriver_loss.cfg", True), ("AsyncDriver_limit.cfg", True)],
+    "c15": [("MC_AsyncDriver", "AsyncDriver_c15.cfg", None), ("MC_AsyncDriver", "AsyncDriver_cancel.cfg", None),
+            ("MC_AsyncDriver", "AsyncDriver_cancel_old.cfg", "NoAssertion"),
+            ("MC_SerialDriver", "SerialDriver_plain.cfg", None), ("MC_SerialDriver", "SerialDriver_cancelq.cfg", None),
+            ("MC_SerialDriver", "SerialDriver_cancel_safe.cfg", None)],
+    "c16": [("MC_AsyncDriver", "AsyncDriver_c15.cfg", None), ("MC_AsyncDriver", "AsyncDriver_cancel.cfg", None),
+            ("MC_AsyncDriver", "AsyncDriver_loss.cfg", None),
+            ("MC_SerialDriver", "SerialDriver_plain.cfg", None), ("MC_SerialDriver", "SerialDriver_silent.cfg", None),
+            ("MC_SerialDriver", "SerialDriver_stale_fac.cfg", None)],
+    "c17": [("MC_AsyncDriver", "AsyncDriver_loss.cfg", None), ("MC_AsyncDriver", "AsyncDriver_limit.cfg", None),
+            ("MC_SerialDriver", "SerialDriver_silent.cfg", None), ("MC_SerialDriver", "SerialDriver_cancel_safe.cfg", None),
+            # the known finding orphaned-answer-after-cancel at model level: cancellation in flight breaks NoCrossTalk
+            ("MC_SerialDriver", "SerialDriver_cancel.cfg", "NoCrossTalk")],
 }
-THOROUGH_EXTRA = [("AsyncDriver_big.cfg", True)]
+THOROUGH_EXTRA = [("MC_AsyncDriver", "AsyncDriver_big.cfg", None)]
 
 
 def model_runs(out, sc, mode, tier):
-    """exhaustive TLC runs of AsyncDriver; the pre-fix lock handling (FixedCancel = FALSE) must be *rejected* by the
-    model (a model that cannot see the defect would not be worth binding to)"""
-    for cfg, expect_ok in MODEL_CFGS[mode] + (THOROUGH_EXTRA if tier == "thorough" else []):
-        r = core.run_tlc("MC_AsyncDriver", cfg, sc, workers=core.NCPU, timeout=3000, xmx="6g")
-        if expect_ok and not r.ok:
-            raise core.MachineryError("AsyncDriver model %s failed:\n%s" % (cfg, r.out[-4000:]))
-        if not expect_ok and "Invariant NoAssertion is violated" not in r.out:
-            raise core.MachineryError("AsyncDriver model %s: the pre-fix variant should violate NoAssertion\n%s" % (cfg, r.out[-3000:]))
-        out.add_spec_run(r, "AsyncDriver/" + cfg[12:-4])
+    """exhaustive TLC runs of the implementation-shaped driver models; variants that model a known defect must be
+    *rejected* by TLC (a model that cannot see the defect would not be worth binding to)"""
+    for module, cfg, must_violate in MODEL_CFGS[mode] + (THOROUGH_EXTRA if tier == "thorough" else []):
+        r = core.run_tlc(module, cfg, sc, workers=core.NCPU, timeout=3000, xmx="6g")
+        if must_violate is None and not r.ok:
+            raise core.MachineryError("driver model %s failed:\n%s" % (cfg, r.out[-4000:]))
+        if must_violate is not None and ("Invariant %s is violated" % must_violate) not in r.out:
+            raise core.MachineryError("driver model %s should violate %s\n%s" % (cfg, must_violate, r.out[-3000:]))
+        out.add_spec_run(r, cfg[:-4].replace("_", "/", 1) + (" (violates %s, as intended)" % must_violate if must_violate else ""))
 
 
 def conformance(out, recs, sc):
